@@ -75,6 +75,14 @@ func runReplay(c *core.Ctx) error {
 			return err
 		}
 		switch head.T {
+		case "sv":
+			if err := svReplay(c, raw, i); err != nil {
+				return err
+			}
+		case "sx":
+			if err := sxReplay(c, raw, i); err != nil {
+				return err
+			}
 		case "rt":
 			var old rtCase
 			_ = json.Unmarshal(raw, &old)
@@ -752,6 +760,14 @@ func runBuilderCase(c *core.Ctx, dir string, keys map[string]keyMat, cs *bCase, 
 	}
 	sb := pkcs7.NewBuilder(km.signer, km.certs, opts)
 	content := []byte("relic verification content " + cs.Label)
+	switch cs.Mode {
+	case "data-octet-string-run": // id-data content that is itself a complete primitive OCTET STRING element (04 1e + 30 octets)
+		content = cat([]byte{0x04, 0x1e}, bytes.Repeat([]byte{0xa5}, 30))
+		cs.Mode = "data"
+	case "data-octet-string-run-2":
+		content = cat([]byte{0x04, 0x03}, []byte("abc"), []byte{0x04, 0x00}, []byte{0x04, 0x02}, []byte("de"))
+		cs.Mode = "data"
+	}
 	var ctype asn1.ObjectIdentifier
 	var contentDigest []byte
 	switch cs.Mode {
@@ -1023,6 +1039,9 @@ func builderSpecs() []bspec {
 		{"sha1-attrs", "rsa", "sha1", "data", preSpec{{oidSigningTime, t0, "signing-time"}}, 1, "cms", true},
 		{"many-attrs", "ec", "sha512", "data", preSpec{{asn1.ObjectIdentifier{1, 2, 3, 1}, 1, "a1"}, {asn1.ObjectIdentifier{1, 2, 3, 2}, "two", "a2"}, {asn1.ObjectIdentifier{1, 2, 3, 3}, []byte{}, "a3"}, {asn1.ObjectIdentifier{2, 999, 3}, 300, "a4"}, {oidSigningTime, t0, "signing-time"}}, 1, "cms", true},
 		{"catalog-resign", "rsa", "sha256", "catalog", nil, 1, "authenticode", true},
+		{"content-octet-string-run", "rsa", "sha256", "data-octet-string-run", preSpec{{oidSigningTime, t0, "signing-time"}}, 1, "cms", true},
+		{"content-octet-string-run-noattrs", "ec", "sha256", "data-octet-string-run", nil, 1, "", true},
+		{"content-octet-string-run-2", "ec", "sha256", "data-octet-string-run-2", preSpec{{oidSigningTime, t0, "signing-time"}}, 1, "", true},
 		{"catalog-resign-attrs", "ec", "sha256", "catalog", preSpec{{oidCustom, spcStatement{asn1.ObjectIdentifier{1, 3, 6, 1, 4, 1, 311, 2, 1, 21}}, "statement-type"}}, 1, "", true},
 		// outside the domain of builder_attrs_once (witnesses of the _refuted theorems, replayed on the real code)
 		{"pre-content-type", "rsa", "sha256", "data", preSpec{{pkcs7.OidAttributeContentType, asn1.ObjectIdentifier{1, 2, 3}, "caller content-type"}}, 1, "", false},
